@@ -135,7 +135,7 @@ pub fn collect(tier: &str, caps: &Caps, rep: &Report) -> Vec<BItem> {
     rep.add_stats("child-pos", &cb.map(|b| format!("dev({})", b)).unwrap_or("full".into()), &st);
     eprintln!("  space child-pos: {} choice vectors, {} pruned", st.leaves, st.pruned);
     let pl = if tier == "quick" { 3 } else { 4 };
-    let pb = if tier == "quick" { Some(6) } else { Some(9) };
+    let pb = if tier == "quick" { Some(5) } else { Some(7) };
     let st = explore(
         |ctx| gen_parent(ctx, pl),
         pb,
